@@ -51,7 +51,9 @@ impl RuleMaker for RegexRule {
         let expression = cleanup_unrecognized_escape_sequences(expression);
         let expression = escape_misused_repetition_quantifier(&expression);
         let expression = escape_misused_character_class(&expression);
-        let regex = ByteRegex::new(&format!("^{}$", expression))?;
+        // group the expression, so that the anchors apply to all of it and
+        // not just to the outer branches of an alternation (`^a|b$`)
+        let regex = ByteRegex::new(&format!("^(?:{})$", expression))?;
         Ok(Box::new(RegexRule(expression, regex)))
     }
 }
